@@ -33,8 +33,8 @@ PROP = {'gen': [],
                'exactly the denotation of the drawn surface = what a naive painter leaves on a blank terminal, and no command is a '
                'protocol error (C01_history, C01_history_final, C01_scratch); after new(clear=true) / clear() the next frame repaints '
                'every cell on an arbitrary previous screen (C01_forced; C01_clear_then_frame: clear(), draw S, frame() shows S); '
-               'the "forced clear" part of the property is carried by the order of run_render (poll; frames_drop; clear(); only then '
-               'the handler draws; frame()) and proved for the render loop with its '
+               'the "forced clear" part of the property is carried by the order of run_render (poll; frames_drop; clear(); on a Resize '
+               'event clear() and a new renderer; only then the handler draws; frame()) and proved for the render loop with its '
                'output queue and frame dropping, end to end: whatever the tty takes, whatever frames_pending() answers and whichever prefix '
                'of the queue survives a drop, every delivered frame of every session displays the surface drawn for it - cells, no '
                'protocol error, its placements - and places nothing besides them and the images whose ImageErase the last drop '
@@ -54,8 +54,9 @@ PROP = {'gen': [],
                'EraseChars leaves ferase(pen) = background only, clipped, cursor unmoved; CUP row clamp; images do not alter cells; an '
                'overwritten wide half leaves an Orphan cell that no surface denotes); hand-written model Render/Frame.v validated by '
                'the correspondence run; oracle_ok (space is one column wide, a default blank is an untouched cell, erasable faces erase '
-               'like spaces); nine fix: commits in the crate (incl. three follow-ups after an audit) (marks reset after use / force_repaint flag, wide-character extent, Option-tracked face/cursor, '
-               'run_render drops and clears before the handler draws (clear() itself resets the surface, as documented), '
+               'like spaces); ten fix: commits in the crate (incl. three follow-ups after an audit) (marks reset after use / force_repaint flag, wide-character extent, Option-tracked face/cursor, '
+               'run_render drops and clears before the handler draws (clear() itself resets the surface, as documented) and before it '
+               'handles a Resize event (93ac8da: the image erases of that clear() were dropped), '
                'no EraseChars for faces with underline/strike/reverse, hidden wide characters '
                'do not own the column behind them and damage it only when their cover was repainted). Render/Loop.v takes from Props/C16.v (C16_frames, C16_frames_flush_delimited, '
                'C16_render_loop_schema) the interface of the output queue: chunks delimited by flush/poll, delivered in order and '
@@ -87,4 +88,6 @@ PROP = {'gen': [],
                  'renderer / resize, and placements still on the terminal at that moment are tolerated afterwards',
                  'render loop: the queue interface proved in C16 (whole chunks, in order, drops keep a prefix); sessions in which a '
                  'dropped chunk carried the ImageErase of a delivered image are the known class DroppedImageErase (that image stays; '
-                 'everything else is still judged); a resize while frames are pending is outside the sessions']}
+                 'everything else is still judged); Resize events of the sessions keep the size and the screen contents - '
+                 'a resize to another size while frames are pending (frames of the old size executed on the new screen) is outside '
+                 'the sessions and covered by op Resize of the histories only']}
